@@ -7,7 +7,7 @@
 From Coq Require Import String.
 From Coq Require Import List Ascii ZArith Bool.
 From CGV Require Import Base.PyBase Base.PyVal Base.NxGraph Gen.HydroGen Hydro.Hydrogens Hydro.HydroDefs
-     Hydro.HydrogensProofs Hydro.SquashDefs Hydro.RebuildProofs.
+     Hydro.HydrogensProofs Hydro.SquashDefs Hydro.RebuildProofs Hydro.Aromatic Hydro.AromaticProofs.
 Import ListNotations.
 Open Scope Z_scope.
 
@@ -156,6 +156,64 @@ Example C09_nonvacuous_valence :
   table_row (S "N") 0 = Some (Some [3; 5]) /\ missing_of [3; 5] 8 = 1 /\ missing_of [3; 5] 9 = 0.
 Proof. exact valence_complete_nonvacuous. Qed.
 
+(** ------------------------------------------------------------------ THE AROMATICITY STEP, MODELLED
+    Hydro/Aromatic.v is an executable model of pysmiles' correct_aromatic_rings / dekekulize (compared on every
+    run with the recorded state, ./check C09); only two answers of networkx' enumeration enter as transcripts:
+    the kekulisation matching M and the list L of rings dekekulize marked, each under a contract the model
+    enforces.  For EVERY graph and EVERY (M, L) on which the modelled function does not raise, its result g1
+    honours the contract under which all theorems about the later steps (here, C01_*_car, C06_*_car, C11, C14)
+    are stated: same nodes and adjacency in the same order, every node attribute but `aromatic` and every edge
+    attribute but `order` untouched, `aromatic` set on every node. *)
+Theorem C09_aromatic_model_skeleton : forall strict g M L g1,
+  car_model strict g M L = Ok g1 -> transcript_contract g g1 = true.
+Proof. exact car_model_skeleton. Qed.
+
+(** ... and, for graphs with distinct keys whose orders are numbers, integral or 1.5: every order of g1 is a number and
+    a 1.5 order only joins two atoms flagged aromatic (the hypothesis of C09_rebuild_valence_exact) *)
+Theorem C09_aromatic_model_arom : forall strict g M L g1,
+  NoDup (node_keys g) -> orders_std g -> car_model strict g M L = Ok g1 ->
+  arom_contractb g1 = true /\ NoDup (node_keys g1).
+Proof. exact car_model_arom. Qed.
+
+(** rebuild_h_atoms with the aromaticity step computed by the model is rebuild_h_atoms on the computed state *)
+Theorem C09_rebuild_through_model : forall kb ca g M L g', rebuild_h_atoms_m kb ca g M L = Ok g' ->
+  exists g1, car_model rebuild_strict g M L = Ok g1 /\ transcript_contract g g1 = true /\
+             rebuild_h_atoms kb ca g (Some g1) = Ok g' /\ rebuild_after_car kb ca g1 = Ok g'.
+Proof. exact rebuild_m_is_rebuild. Qed.
+
+(** the exact valence theorem without any hypothesis about the aromaticity step *)
+Theorem C09_rebuild_valence_exact_model : forall ca g M L g',
+  NoDup (node_keys g) -> closed_g g -> noself_g g -> orders_std g ->
+  rebuild_h_atoms_m false ca g M L = Ok g' ->
+  exists g1, car_model rebuild_strict g M L = Ok g1 /\
+    transcript_contract g g1 = true /\ arom_contractb g1 = true /\
+    NoDup (node_keys g1) /\ closed_g g1 /\ noself_g g1 /\ rebuild_after_car false ca g1 = Ok g' /\
+    ((forall i m, gfind i g1 = Some m -> no_rs m) ->
+     forall k n val b, gfind k g1 = Some n -> is_H (na n) = false -> is_arom (na n) = false ->
+       valence_of (na n) = Ok val -> sum_orders (nadj n) = Ok b -> fits val b ->
+       exists v idxs n', least_fitting val b v /\ gfind k g' = Some n' /\
+         nadj n' = nadj n ++ map (fun j => (j, h_edge_attrs)) idxs /\
+         2 * Z.of_nat (length idxs) = 2 * v - b /\ sum_orders (nadj n') = Ok (2 * v) /\
+         forall j, In j idxs -> exists h, gfind j g' = Some h /\ nadj h = [(k, h_edge_attrs)] /\ is_H (na h) = true).
+Proof. exact rebuild_m_valence_exact. Qed.
+
+(** non-vacuity: benzene as a fragment writes it (all aromatic, all 1.5) is kekulised and marked again; without a
+    marked ring the kekulised state stays; a non-matching, an extendable matching and a non-alternating ring are
+    rejected; an odd ring that cannot be kekulised raises SyntaxError exactly when strict *)
+Example C09_aromatic_model_nonvacuous :
+  orders_std benzene /\ NoDup (node_keys benzene) /\
+  (exists g1, car_model true benzene [(0, 1); (2, 3); (4, 5)] [([0; 1; 2; 3; 4; 5], false)] = Ok g1 /\
+              arom_of g1 0 = true /\ edge_get g1 0 1 (S "order") = Some v15 /\ edge_get g1 1 0 (S "order") = Some v15 /\
+              transcript_contract benzene g1 = true /\ arom_contractb g1 = true) /\
+  (exists g1, car_model true benzene [(0, 1); (2, 3); (4, 5)] [] = Ok g1 /\ arom_of g1 0 = false /\
+              edge_get g1 0 1 (S "order") = Some (VInt 2) /\ edge_get g1 1 2 (S "order") = Some (VInt 1)) /\
+  car_model true benzene [(0, 1); (1, 2)] [] = Err EAssert /\
+  car_model true benzene [(0, 1); (2, 3)] [] = Err EAssert /\
+  car_model true benzene [(0, 1); (2, 3); (4, 5)] [([0; 1; 2], false)] = Err EAssert /\
+  car_model true cp_ring [(0, 1); (2, 3)] [] = Err (ESyntax (S "kekulize")) /\
+  (exists g1, car_model false cp_ring [(0, 1); (2, 3)] [] = Ok g1).
+Proof. exact car_model_nonvacuous. Qed.
+
 Print Assumptions C09_valence_table_wf_bounded.
 Print Assumptions C09_bonds_missing_spec.
 Print Assumptions C09_valence_complete.
@@ -169,3 +227,7 @@ Print Assumptions C09_rebuild_end_to_end.
 Print Assumptions C09_rebuild_valence_sum.
 Print Assumptions C09_wf_graph_structural.
 Print Assumptions C09_rebuild_valence_exact.
+Print Assumptions C09_aromatic_model_skeleton.
+Print Assumptions C09_aromatic_model_arom.
+Print Assumptions C09_rebuild_through_model.
+Print Assumptions C09_rebuild_valence_exact_model.
